@@ -1,5 +1,5 @@
 // C11 - separate-process mode contains every way a test can die.
-// Layer A ("answers", "eintr"): no real processes. PlatformSpecificFork / PlatformSpecificWaitPid are seams;
+// Layer A ("answers", "eintr"): no real processes. PlatformSpecificFork is a seam, waitpid() is interposed by symbol (below the library's own wrapper);
 //   every sequence of wait answers (EINTR, other error, stopped(sig), exited(k), signaled(s)) with a bounded
 //   number of non-final answers is fed to the real parent-side wait loop of a registry [pass, X, pass]; a reference
 //   automaton over the answer sequence decides failures, SIGCONT, termination.
@@ -34,6 +34,14 @@ namespace { bool g_record_kill = false; int g_kills = 0, g_kill_sig[64], g_kill_
 extern "C" int kill(pid_t pid, int sig) {
     if (g_record_kill) { if (g_kills < 64) { g_kill_pid[g_kills] = pid; g_kill_sig[g_kills] = sig; } g_kills++; if (!g_forward_kill) return 0; }
     return (int)syscall(SYS_kill, pid, sig);
+}
+
+// waitpid() interposed by symbol as well: layer A goes through the library's own PlatformSpecificWaitPid implementation
+// (the function a real run uses) and the scripted answers are given one level below it, by "the operating system".
+namespace { bool g_script_wait = false; int waitpid_seam(int pid, int* status, int); }
+extern "C" pid_t waitpid(pid_t pid, int* status, int options) {
+    if (g_script_wait) return waitpid_seam(pid, status, options);
+    return (pid_t)syscall(SYS_wait4, pid, status, options, nullptr);
 }
 
 namespace {
@@ -84,6 +92,7 @@ void run_answers(const std::vector<Ans>& script, bool fork_fails) {
     vf::ctx("wait-loop");
     g_script = script; g_script_pos = 0; g_forks = g_waits = 0; g_fork_fails_for_x = fork_fails; g_x_index = 1; g_runaway = false;
     g_kills = 0; g_record_kill = true; g_forward_kill = false;
+    g_script_wait = true;
     std::string desc = fork_fails ? "fork fails" : "";
     for (auto& a : script) desc += ans_str(a) + " ";
     Recorder out; TestResult result(out);
@@ -93,7 +102,7 @@ void run_answers(const std::vector<Ans>& script, bool fork_fails) {
         reg.setRunTestsInSeperateProcess();
         reg.runAllTests(result);
     }
-    g_record_kill = false;
+    g_record_kill = false; g_script_wait = false;
     // ---- reference
     int want_fail = 0, want_cont = 0; std::vector<std::string> want_text; bool ended = false; int eintr = 0; bool gave_up_ok = false;
     if (fork_fails) { want_fail = 1; want_text.push_back("fork"); ended = true; }
@@ -240,8 +249,9 @@ int main(int argc, char** argv) {
     bool plain = std::string(VF_FLAVOUR) == "plain";
     vf::info("rule", "layer A: every sequence of waitpid answers (<= d non-final answers from {EINTR, stopped by SIGSTOP/SIGTSTP/SIGTTIN/SIGTTOU}, then a final answer from {exited 0..255, signaled 1..64 with/without core, other error}) and fork failure, fed to the real wait loop; layer B (plain build): the child really dies at every crash point; non-trivial = at least one failure expected");
 
-    // ---- layer A: answer sequences
-    PlatformSpecificFork = fork_seam; PlatformSpecificWaitPid = waitpid_seam;
+    // ---- layer A: answer sequences (fork through the function-pointer seam, waitpid through the library's own implementation over the interposed symbol)
+    int (*lib_waitpid)(int, int*, int) = PlatformSpecificWaitPid;
+    PlatformSpecificFork = fork_seam;
     std::vector<Ans> nonfinal = { {A_EINTR, 0}, {A_STOP, SIGSTOP}, {A_STOP, SIGTSTP}, {A_STOP, SIGTTIN}, {A_STOP, SIGTTOU} };
     std::vector<Ans> finals;
     for (int k = 0; k < 256; k++) finals.push_back({A_EXIT, k});
@@ -293,7 +303,7 @@ int main(int argc, char** argv) {
         });
         vf::require_outcomes("realfork", 5);
     } else {
-        PlatformSpecificFork = fork_seam; PlatformSpecificWaitPid = waitpid_seam;
+        PlatformSpecificFork = fork_seam; PlatformSpecificWaitPid = lib_waitpid;
     }
     return vf::finish();
 }
